@@ -1983,6 +1983,7 @@ static int in_quick(const cell_t *c, const suite_t *su)
     }
     if (c->noems || c->cookie) return rep && base_dims && !c->cauth;  /* plain master secret / DTLS cookie: class representatives x resumption */
     if (base_dims && !c->cauth && c->resm == M_NONE) return 1;        /* every suite once (PRF hash x MAC x cipher combinations) */
+    if (c->group == G_DEF && c->sig == S_DEF && c->cauth && c->resm == M_NONE && !c->legacy) return 1;   /* every suite x every credential with client authentication (transcript hash x CertificateVerify hash) */
     if (c->group != G_DEF && c->sig == S_DEF && c->cred == base_cred_for(c) && !c->cauth && c->resm == M_NONE && !c->legacy) return 1;   /* every suite x every group (premaster length x PRF hash) */
     if (rep && base_dims) return 1;                                   /* class representatives x client-auth x resumption */
     if (is_base && c->resm == M_NONE)
